@@ -11,5 +11,7 @@ CONSTANTS
   RestrictionsFirst = FALSE
   IgnoreNegation = FALSE
   PipeFirst = FALSE
+  FormatInKeyOrder = FALSE
+  KeyOrders <- OneKeyOrder
 SPECIFICATION TSpec
 CHECK_DEADLOCK FALSE
